@@ -245,7 +245,35 @@ def rule_k5(ctx):
                             if dd[0] == "assign" and dd[3]["rv"]["k"] == "use" and dd[3]["rv"]["op"].get("place", {}).get("l") == d and not dd[3]["rv"]["op"]["place"]["p"]:
                                 accs.add(l)
             if not accs:
-                raise AnchorMissing("K5: %s arm of %s does not fold with std::cmp::%s" % (variant, fid, call))
+                # `args.iter().map(resolve).fold(<ty>::MIN, max)`: identity and combining function are the operands of the fold
+                folds = [(b, body.term(b)) for b in sorted(region) if body.term(b)["k"] == "call" and body.term(b)["func"].get("declared") == "std::iter::Iterator::fold"
+                         and len(body.term(b)["args"]) == 3 and body.term(b)["args"][2].get("fn") == "std::cmp::" + call]
+                if len(folds) != 1:
+                    raise AnchorMissing("K5: %s arm of %s does not fold with std::cmp::%s" % (variant, fid, call))
+                fb, ft = folds[0]
+                chain = set()
+                cur = ft["args"][0]
+                for _ in range(10):
+                    # the adaptor chain the fold consumes: receiver of the receiver of ..
+                    nxt = None
+                    for (r, p) in body.trace_operand(cur, through={}) if cur["k"] in ("copy", "move") else ():
+                        if r[0] == "call":
+                            chain.add(mir.last_seg(r[2] or ""))
+                            if body.term(r[1])["args"]:
+                                nxt = body.term(r[1])["args"][0]
+                    if nxt is None:
+                        break
+                    cur = nxt
+                dropping = chain & {"filter", "take", "skip", "take_while", "skip_while", "step_by", "filter_map", "rev_take"}
+                init = ft["args"][1]
+                if dropping:
+                    res.bad(Finding("K5", fid, "%s fold does not see every argument" % variant, "the iterator handed to fold goes through %s: arguments can be left out" % sorted(dropping), ft["sp"]))
+                elif init["k"] == "const" and init.get("val") == want:
+                    res.ok({"function": fid, "fold": variant, "identity": want, "verdict": "Iterator::fold over all arguments, starting from the identity"})
+                else:
+                    res.bad(Finding("K5", fid, "%s fold starts from %s" % (variant, init.get("val", init.get("repr"))),
+                                    "the identity of a %s fold over %s is %d; starting elsewhere makes `%s()` of small / large constants wrong" % (variant.lower(), ty, want, variant.lower()), ft["sp"]))
+                continue
             # every argument must take part in the fold: the loop over the arguments is only left early when the
             # accumulator has reached the absorbing element of the fold (type MIN for min, type MAX for max)
             absorbing = TYPE_MIN[ty] if variant == "Min" else TYPE_MAX[ty]
